@@ -98,6 +98,32 @@ fn ev_echo(peers: u8) -> impl Strategy<Value = Ev> {
     ]
 }
 
+/// Messages an initiator sends while it holds agency (what a responder receives from a well-behaved or hasty peer).
+fn initiator_side_msg() -> impl Strategy<Value = MsgR> {
+    use MsgR::*;
+    prop_oneof![
+        Just(CsRequestNext), prop::collection::vec(pt(), 0..3).prop_map(CsFindIntersect), Just(CsDone),
+        (pt(), pt()).prop_map(|(a, b)| BfRequestRange(a, b)), Just(BfClientDone),
+        any::<u16>().prop_map(KaKeepAlive), Just(KaDone),
+        any::<u8>().prop_map(PsShareRequest), Just(PsDone),
+        Just(TxInit), (0u8..4).prop_map(TxReplyTxIds), (0u8..4).prop_map(TxReplyTxs), Just(TxDone),
+        Just(LnRequestNext), Just(LnDone),
+        pt().prop_map(LfBlockRequest), (pt(), any::<u8>()).prop_map(|(a, b)| LfBlockTxsRequest(a, b)), Just(LfDone),
+    ]
+}
+
+/// Events for the "responder after a proposal" family: few confirmations, mostly requests of the peer — also while the
+/// responder's own Accept is still unconfirmed (a peer may pipeline its first requests behind its proposal).
+fn ev_after_proposal(peers: u8) -> impl Strategy<Value = Ev> {
+    let p = 0..peers;
+    prop_oneof![
+        3 => Just(Ev::ConfirmSend),
+        12 => (p.clone(), prop::collection::vec(initiator_side_msg(), 1..3)).prop_map(|(a, m)| Ev::Recv(a, m)),
+        2 => Just(Ev::Housekeeping),
+        3 => ev(peers),
+    ]
+}
+
 fn io<M: pallas_network2::Message>(e: &Ev, build: impl Fn(&MsgR) -> M) -> Option<InterfaceEvent<M>> {
     Some(match e {
         Ev::Connected(p) => InterfaceEvent::Connected(pid(*p + 1)),
@@ -328,6 +354,25 @@ pub fn run(s: &Session) {
             check,
         );
     }
+    // responders that have just received an acceptable proposal (versions 13 / 15, right magic) from one or two peers
+    s.forall(
+        "responder-after-proposal",
+        s.pick(30_000, 800_000),
+        || {
+            (prop::sample::select(vec![13u64, 14, 15]), any::<bool>(), any::<bool>(), prop::collection::vec(ev_after_proposal(2), 1..=24)).prop_map(|(v, both, confirm_first, rest)| {
+                let mut evs = vec![Ev::Connected(0), Ev::Recv(0, vec![MsgR::HsPropose(vec![(v, 764824073)])])];
+                if both {
+                    evs.extend([Ev::Connected(1), Ev::Recv(1, vec![MsgR::HsPropose(vec![(13, 764824073), (v, 764824073)])])]);
+                }
+                if confirm_first {
+                    evs.push(Ev::ConfirmSend);
+                }
+                evs.extend(rest);
+                Case { responder: true, small_limits: false, evs }
+            })
+        },
+        check,
+    );
     for (name, responder, maxlen, small) in [
         ("initiator-short", false, 12usize, false), ("initiator-long", false, 300, false), ("initiator-small-limits", false, 60, true),
         ("responder-short", true, 12, false), ("responder-long", true, 300, false),
